@@ -25,55 +25,52 @@ structure Noise where
   triggered : Bool := false
 deriving DecidableEq, Repr
 
-namespace Noise
-
-/-- `noise.period()` (uint32) -/
-def period (n : Noise) : Nat :=
-  let d := (n.divisor * 16) % 4294967296
-  let d := if d = 0 then 8 else d
-  (d <<< n.shift) % 4294967296
+/-- `noise.period()` (uint32) for divisor code `d` and clock shift `sh` -/
+def noisePeriodOf (d sh : Nat) : Nat :=
+  if (d * 16) % 4294967296 = 0 then (8 <<< sh) % 4294967296
+  else (((d * 16) % 4294967296) <<< sh) % 4294967296
 
 /-- one LFSR step exactly as in `tickTimer` (uint16 register) -/
 def lfsrStep (width : Nat) (l : Nat) : Nat :=
-  let b0 := l &&& 1
-  let b1 := (l >>> 1) &&& 1
-  let new := b0 ^^^ b1
-  let l := l >>> 1
-  let l := l ||| (new <<< 14)
-  if width > 0 then ((l &&& 0xffbf) ||| (new <<< 6)) else l
+  if width > 0 then
+    (((l >>> 1) ||| (((l &&& 1) ^^^ ((l >>> 1) &&& 1)) <<< 14)) &&& 0xffbf) ||| (((l &&& 1) ^^^ ((l >>> 1) &&& 1)) <<< 6)
+  else (l >>> 1) ||| (((l &&& 1) ^^^ ((l >>> 1) &&& 1)) <<< 14)
+
+namespace Noise
+
+def period (n : Noise) : Nat := noisePeriodOf n.divisor n.shift
 
 /-- `noise.trigger` -/
 def trigger (n : Noise) : Noise :=
-  let n := { n with triggered := true, enabled := true }
-  let n := if n.length = 0 then { n with length := 64 } else n
-  let n := { n with timer := n.period, envelopeTimer := n.envelopeSweep }
-  let n := if n.envelopeTimer = 0 then { n with envelopeTimer := 8 } else n
-  let n := { n with volume := n.initialVolume, lfsr := 0xffff }
-  if !n.dacEnabled then { n with enabled := false } else n
+  { n with triggered := true, enabled := n.dacEnabled,
+           length := if n.length = 0 then 64 else n.length,
+           timer := n.period,
+           envelopeTimer := if n.envelopeSweep = 0 then 8 else n.envelopeSweep,
+           volume := n.initialVolume, lfsr := 0xffff }
 
 /-- `noise.tickTimer` -/
 def tickTimer (n : Noise) : Noise :=
-  let n := if n.timer = 0 then { n with timer := n.period, lfsr := lfsrStep n.lfsrWidth n.lfsr } else n
-  { n with timer := dec32 n.timer }
+  if n.timer = 0 then { n with timer := dec32 n.period, lfsr := lfsrStep n.lfsrWidth n.lfsr }
+  else { n with timer := dec32 n.timer }
 
 /-- `noise.tickLength` -/
 def tickLength (n : Noise) : Noise :=
-  if !n.lengthEnable then n else
-  if n.length > 0 then
-    let n := { n with length := dec8 n.length }
-    if n.length = 0 then { n with enabled := false } else n
+  if !n.lengthEnable then n
+  else if n.length > 0 then
+    { n with length := dec8 n.length, enabled := n.enabled && decide (dec8 n.length ≠ 0) }
   else n
 
 /-- `noise.tickVolumeEnvelope` -/
 def tickVolumeEnvelope (n : Noise) : Noise :=
-  if n.envelopeSweep = 0 then n else
-  let n := if n.envelopeTimer = 0 then
-      (if n.envelopeIncrease then
-        (if n.volume < 15 then { n with volume := inc8 n.volume, envelopeTimer := n.envelopeSweep } else n)
-       else
-        (if n.volume > 0 then { n with volume := dec8 n.volume, envelopeTimer := n.envelopeSweep } else n))
-    else n
-  { n with envelopeTimer := dec8 n.envelopeTimer }
+  if n.envelopeSweep = 0 then n
+  else if n.envelopeTimer = 0 then
+    (if n.envelopeIncrease then
+      (if n.volume < 15 then { n with volume := inc8 n.volume, envelopeTimer := dec8 n.envelopeSweep }
+       else { n with envelopeTimer := dec8 n.envelopeTimer })
+     else
+      (if n.volume > 0 then { n with volume := dec8 n.volume, envelopeTimer := dec8 n.envelopeSweep }
+       else { n with envelopeTimer := dec8 n.envelopeTimer }))
+  else { n with envelopeTimer := dec8 n.envelopeTimer }
 
 /-- `noise.takeSample` as the exact numerator over 120: `(1 - lfsr&1)·volume/8` -/
 def sampleNum (n : Noise) : Nat :=
@@ -84,27 +81,30 @@ def writeNR41 (n : Noise) (v : Nat) : Noise := { n with length := 64 - v % 64 }
 
 /-- `WriteNR42` -/
 def writeNR42 (n : Noise) (v : Nat) : Noise :=
-  let n := { n with initialVolume := v / 16, envelopeIncrease := decide (v / 8 % 2 > 0), envelopeSweep := v % 8 }
-  let n := { n with dacEnabled := decide (n.initialVolume > 0) || n.envelopeIncrease }
-  if !n.dacEnabled then { n with enabled := false } else n
+  { n with initialVolume := v / 16, envelopeIncrease := decide (v / 8 % 2 > 0), envelopeSweep := v % 8,
+           dacEnabled := decide (v / 16 > 0) || decide (v / 8 % 2 > 0),
+           enabled := n.enabled && (decide (v / 16 > 0) || decide (v / 8 % 2 > 0)) }
 
 /-- `WriteNR43` -/
 def writeNR43 (n : Noise) (v : Nat) : Noise :=
   { n with shift := v / 16, lfsrWidth := v / 8 % 2, divisor := v % 8 }
 
+def extraLenClock (n : Noise) (fs : Nat) (le trig : Bool) : Noise :=
+  if !n.lengthEnable && le && decide (n.length > 0) && decide (fs % 2 = 1) then
+    { n with length := dec8 n.length, enabled := n.enabled && !(decide (dec8 n.length = 0) && !trig) }
+  else n
+
+def trigLenClock (n : Noise) (fs : Nat) (le : Bool) : Noise :=
+  if le && decide (n.length = 64) && decide (fs % 2 = 1) then { n with length := dec8 n.length } else n
+
+def trigPart (n : Noise) (fs : Nat) (le trig : Bool) : Noise :=
+  if trig then n.trigger.trigLenClock fs le else n
+
+def setLE (n : Noise) (le : Bool) : Noise := { n with lengthEnable := le }
+
 /-- `WriteNR44`; `fs` is `a.frameSeqTicks` -/
 def writeNR44 (n : Noise) (fs : Nat) (v : Nat) : Noise :=
-  let trig : Bool := decide (v / 128 % 2 > 0)
-  let le : Bool := decide (v / 64 % 2 > 0)
-  let n := if !n.lengthEnable && le && decide (n.length > 0) && decide (fs % 2 = 1) then
-      (let n : Noise := { n with length := dec8 n.length }
-       if n.length = 0 ∧ trig = false then { n with enabled := false } else n)
-    else n
-  let n := if trig then
-      (let n : Noise := n.trigger
-       if le && decide (n.length = 64) && decide (fs % 2 = 1) then { n with length := dec8 n.length } else n)
-    else n
-  { n with lengthEnable := le }
+  ((n.extraLenClock fs (leOf v) (trigOf v)).trigPart fs (leOf v) (trigOf v)).setLE (leOf v)
 
 end Noise
 end Tetro.Model.Apu
